@@ -34,6 +34,8 @@ MIN_REACH = {
     "datasets_with_mixed_locations": {"quick": 100, "thorough": 1500},
     "find_harvest_find_loops": {"quick": 40, "thorough": 400},
     "absent_coordinate_requests": {"quick": 100, "thorough": 1500},
+    "searches_with_a_progress_bar": {"quick": 60, "thorough": 800},
+    "requested_grids_given_as_one_shot_iterables": {"quick": 30, "thorough": 400},
 }
 TIME_BUDGET = {"quick": 400, "thorough": 3400}
 # (some parameter names coincide with keyword options of xarray's own selection methods: they are ordinary names here)
@@ -190,7 +192,11 @@ def run_case(ctx, case):
     try:
         with quiet():
             if isinstance(obj, xr.Dataset):
-                fn_args, missing = xyzpy.find_missing_cases(ds, ignore_dims=spelled, method=method)
+                pb = {}
+                if case["dseed"] % 3 == 1:
+                    pb["show_progbar"] = True        # the progress display changes nothing about what is reported
+                    ctx.count("searches_with_a_progress_bar")
+                fn_args, missing = xyzpy.find_missing_cases(ds, ignore_dims=spelled, method=method, **pb)
             else:
                 fn_args, missing = None, None
     except Exception as e:
@@ -271,7 +277,12 @@ def run_case(ctx, case):
             cs = [dict(zip(cdims, c)) for c in rng.sample(allc, rng.randint(1, min(4, len(allc))))]
         try:
             with quiet():
-                got = xyzpy.parse_into_cases(combos=combos or None, cases=cs, ds=ds, method=method)
+                combos_arg = combos or None
+                if combos and case["dseed"] % 4 == 2:
+                    # the values of a requested grid arrive as one-shot iterables (documented: "iterable")
+                    combos_arg = {k2: iter(list(v)) if i_ % 2 else (x_ for x_ in list(v)) for i_, (k2, v) in enumerate(combos.items())}
+                    ctx.count("requested_grids_given_as_one_shot_iterables")
+                got = xyzpy.parse_into_cases(combos=combos_arg, cases=cs, ds=ds, method=method)
             req = [{**c, **dict(zip(combos, v))} for c in (cs or [{}]) for v in itertools.product(*combos.values())]
             want = [r for r in req if brute_missing(ds, r, method)]
             ctx.count("locations_judged", len(req))
